@@ -35,6 +35,10 @@ type shardSpec struct {
 	NameCount  uint64    `json:"name_count"`
 	Replay     *caseSpec `json:"replay,omitempty"`
 	ReplayName *nameCase `json:"replay_name,omitempty"`
+	RaceFirst  uint64    `json:"race_first"`
+	RaceCount  uint64    `json:"race_count"`
+	RaceCalls  int       `json:"race_calls"`
+	ReplayRace *raceSpec `json:"replay_race,omitempty"`
 }
 
 const rule = "a case is one history: 1-3 resources (identifiers with/without directories and extensions), 0-2 indexes (AutoDownload, PreRelease), " +
@@ -43,7 +47,7 @@ const rule = "a case is one history: 1-3 resources (identifiers with/without dir
 	"flag changes, Index.AutoDownload changes, Purge(keep -1..5), ScanStorage, GetSelectedVersions, AddResource with an invalid version}; after every operation the exported registry " +
 	"state (versions+flags, selected, active), GetVersion, the results of GetFile/Blacklist and the storage directory listing are compared with the reference model. " +
 	"distinct = distinct operation scripts; every history is non-trivial (at least one selection is compared). " +
-	"Plus file-name cases: generated (identifier, version) pairs / versioned paths of the documented format (marker in the file name; directory components free, including version-like text equal to, extending or differing from the file's marker), both round-trip directions"
+	"Plus concurrent rounds: one resource with 6-10 available versions, one goroutine calling GetFile 10000 (quick) or 20000 (thorough) times while 1-3 goroutines move the selection between the oldest and newest version (AddResource(currentRelease)+SelectVersions), then settle on the newest, Purge(keep -1..3) and check the file of the version handed out last. Plus file-name cases: generated (identifier, version) pairs / versioned paths of the documented format (marker in the file name; directory components free, including version-like text equal to, extending or differing from the file's marker), both round-trip directions"
 
 func main() {
 	if dir, ok := vlib.IsChild(); ok {
@@ -56,12 +60,14 @@ func main() {
 	nsh := cfg.N(16, 64)
 	per := uint64(cfg.N(250, 1250))
 	namesPer := uint64(cfg.N(4000, 40000))
+	racesPer := uint64(cfg.N(8, 20))
 	var specs []vlib.ChildSpec
 	if cfg.Replay != "" {
 		specs = replaySpecs(cfg)
 	} else {
 		for s := 0; s < nsh; s++ {
-			sp := shardSpec{Seed: cfg.Seed, Tier: cfg.Tier, Shard: s, First: uint64(s) * per, Count: per, NameFirst: uint64(s) * namesPer, NameCount: namesPer}
+			sp := shardSpec{Seed: cfg.Seed, Tier: cfg.Tier, Shard: s, First: uint64(s) * per, Count: per, NameFirst: uint64(s) * namesPer, NameCount: namesPer,
+				RaceFirst: uint64(s) * racesPer, RaceCount: racesPer, RaceCalls: cfg.N(10000, 20000)}
 			specs = append(specs, vlib.ChildSpec{Name: fmt.Sprintf("shard-%03d", s), Bin: cfg.BinPlain, Spec: sp, Timeout: 15 * time.Minute})
 		}
 	}
@@ -98,6 +104,10 @@ func main() {
 			"getfile local=%d not-available=%d downloaded=%d", rep.Counter("getfile_local"), rep.Counter("getfile_not_available"), rep.Counter("getfile_downloaded"))
 		rep.Floor(rep.Counter("name_dir_contains_file_version_marker") >= q(2000, 20000) && rep.Counter("name_dir_contains_other_version_marker") >= q(2000, 20000),
 			"identifiers whose directory holds the file's version marker=%d, another marker=%d", rep.Counter("name_dir_contains_file_version_marker"), rep.Counter("name_dir_contains_other_version_marker"))
+		if rep.Counter("race_reselection_overtook_a_getfile_call") == 0 && rep.Counter("race_hook_plans_executed") == 0 {
+			rep.Inconclusive("concurrent part: no re-selection ever overtook a GetFile call in %d calls (schedule-dependent); the sequential part is unaffected", rep.Counter("race_getfile_calls"))
+		}
+		rep.Floor(rep.Counter("race_purges") >= q(100, 1000), "concurrent rounds that reached their purge=%d", rep.Counter("race_purges"))
 		rep.Floor(rep.Counter("name_roundtrips") >= q(20000, 200000), "name round trips=%d", rep.Counter("name_roundtrips"))
 	}
 	rep.Assume("reference model = the selection order, the definition of 'selectable', the additive flag semantics of AddVersion and the blacklist guard as documented in updater/resource.go and registry.go and in the property statement; own version parser/comparator (numeric segments, release > pre-release, tags lexical)")
@@ -128,17 +138,18 @@ func replaySpecs(cfg vlib.Cfg) []vlib.ChildSpec {
 			Kind     string    `json:"kind"`
 			Case     *caseSpec `json:"case"`
 			NameCase *nameCase `json:"name_case"`
+			Race     *raceSpec `json:"race"`
 		} `json:"detail"`
 	}
 	b, err := os.ReadFile(cfg.Replay)
 	if err == nil {
 		err = json.Unmarshal(b, &doc)
 	}
-	if err != nil || (doc.Detail.Case == nil && doc.Detail.NameCase == nil) {
+	if err != nil || (doc.Detail.Case == nil && doc.Detail.NameCase == nil && doc.Detail.Race == nil) {
 		fmt.Println("h_updater: replay file holds no history / name case:", err)
 		os.Exit(2)
 	}
-	sp := shardSpec{Seed: cfg.Seed, Tier: cfg.Tier, Replay: doc.Detail.Case, ReplayName: doc.Detail.NameCase}
+	sp := shardSpec{Seed: cfg.Seed, Tier: cfg.Tier, Replay: doc.Detail.Case, ReplayName: doc.Detail.NameCase, ReplayRace: doc.Detail.Race}
 	return []vlib.ChildSpec{{Name: "replay", Bin: cfg.BinPlain, Spec: sp, Timeout: 5 * time.Minute}}
 }
 
@@ -193,6 +204,13 @@ func childMain(dir string) {
 	case sp.Replay != nil:
 		runCase(*sp.Replay, true)
 		b.DistinctS("replay-extra")
+	case sp.ReplayRace != nil:
+		// a schedule cannot be replayed; re-run the same scenario a number of times
+		for k := 0; k < 10 && b.NViolations() == 0; k++ {
+			runRace(b, dir, *sp.ReplayRace)
+		}
+		b.Sample(sp.ReplayRace)
+		b.DistinctS("replay-race-extra")
 	case sp.ReplayName != nil:
 		b.Eval(1)
 		checkName(b, *sp.ReplayName)
@@ -212,6 +230,15 @@ func childMain(dir string) {
 			checkName(b, n)
 			if sp.Shard == 0 && k < 2 {
 				b.Sample(n)
+			}
+		}
+		for k := uint64(0); k < sp.RaceCount; k++ {
+			rs := genRace(sp.Seed, sp.RaceFirst+k, sp.RaceCalls)
+			rs.Hooked = k == 0
+			fmt.Printf("race %d\n", rs.No)
+			runRace(b, dir, rs)
+			if sp.Shard == 0 && k == 1 {
+				b.Sample(rs)
 			}
 		}
 	}
